@@ -104,6 +104,7 @@ def defaultsStep (_ : Unit) (line : String) : Unit × String :=
                                        | "worker" => some Default.Ctx.normal  -- on a second thread, the main thread idling: no matter
                                        | "blocked" => some .inHandler  -- the signal blocked, its disposition already the default one
                                        | "oneshot" => some .inHandler  -- inside a one-shot (SA_RESETHAND) handler of the signal
+                                       | "ignored" => some Default.Ctx.normal  -- the signal is being ignored: the default action all the same
                                        | "handler" => some .inHandler
                                        | "cond" => some .inHandler | _ => none) with
     | some n, some c =>
